@@ -628,6 +628,45 @@ def unit_of_an_edit(spec, st, obs, rs, rng):
         if why_back:
             vs.append(viol("C10", "edit-back-to-original-unit", f"{n}.{prm} {old_q['m']} {old_q['u']} -> {new_q['u']} -> back: {why_back}"))
             break
+    # durations (they go through floor / ceil, hence another *quantity*, away from whole hours, written in another unit
+    # than the one the object was built with): the live model equals the model built with it
+    dur = [("storages", n, "data_storage_duration", (2.0, 30.0)) for n in sorted(storages)]
+    dur += [("jobs", n, "request_duration", (0.2, 3.0)) for n in sorted(spec["jobs"]) if n in names]
+    dur += [("steps", s_, "user_time_spent", (0.05, 2.5)) for pn in spec["system"]["usage_patterns"]
+            for s_ in spec["journeys"][spec["patterns"][pn]["usage_journey"]]["uj_steps"]]
+    for kind, n, prm, (lo, hi) in (rng.sample(dur, min(2, len(dur))) if dur and not vs else []):
+        old_q = spec[kind][n][prm]
+        new_q = None
+        for _ in range(20):
+            unit = rng.choice([a for a in ("min", "s", "day", "hour") if a != old_q["u"]])
+            h_new = round(rng.uniform(lo, hi), 3) + 0.0137
+            cand = {"m": round(h_new * 3600 / float(realsys.unit_info(unit)[0]), 6), "u": unit}
+            spec2 = copy.deepcopy(spec)
+            spec2[kind][n][prm] = cand
+            if specgen.safe_duration(cand, realsys.unit_info) and specgen.spec_is_safe(spec2, realsys.unit_info):
+                new_q = cand
+                break
+        if new_q is None:
+            continue
+        st2, obs2, _ = kcalc.real_outcome(spec2)
+        if st2 != "ok":
+            continue
+        ev += 1
+        try:
+            setattr(rs.objs[n], prm, realsys.mkq(new_q))
+            live_obs = {key: v for key, v in rs.observe().items() if key in obs2}
+            why = obs_diff(live_obs, {key: v for key, v in obs2.items() if key in live_obs})
+            setattr(rs.objs[n], prm, realsys.mkq(old_q))
+            back = {key: v for key, v in rs.observe().items() if key in obs}
+            why_back = obs_diff(back, {key: v for key, v in obs.items() if key in back})
+        except Exception as e:  # noqa
+            break
+        if why:
+            vs.append(viol("C10", f"edit-duration-in-other-unit:{prm}", f"{n}.{prm} edited from {old_q['m']} {old_q['u']} to {new_q['m']} {new_q['u']}: the live model differs from the model built with it: {why}"))
+            break
+        if why_back:
+            vs.append(viol("C10", f"edit-duration-back:{prm}", f"{n}.{prm} {old_q['m']} {old_q['u']} -> {new_q['m']} {new_q['u']} -> back: {why_back}"))
+            break
     return vs, ev
 
 
@@ -816,6 +855,25 @@ def scaling(spec, st, obs, rs, rng):
         why = obs_diff(a1, a3, scale_of=exp)
         if why:
             vs.append(viol("C12", "all-traffic", f"all starts ×{k}: {why}"))
+        # the same multiplication made in place, usage pattern after usage pattern, on the live model: what a model
+        # built with the multiplied traffic gives; and divided again: the original
+        if rs is not None and not why and not history.has_shared_job(spec) and all(p_ in rs.objs for p_ in pats):
+            ev += 1
+            try:
+                for pn in pats:
+                    rs.objs[pn].hourly_usage_journey_starts = realsys.mk_hourly(spec3["patterns"][pn]["hourly_usage_journey_starts"])
+                live_obs = {key: v for key, v in rs.observe().items() if key in obs3}
+                why_live = obs_diff(live_obs, {key: v for key, v in obs3.items() if key in live_obs})
+                for pn in pats:
+                    rs.objs[pn].hourly_usage_journey_starts = realsys.mk_hourly(spec["patterns"][pn]["hourly_usage_journey_starts"])
+                back = {key: v for key, v in rs.observe().items() if key in obs}
+                why_back = obs_diff(back, {key: v for key, v in obs.items() if key in back})
+                if why_live:
+                    vs.append(viol("C12", "all-traffic-in-place", f"all starts ×{k} edited in place differ from the model built with them: {why_live}"))
+                elif why_back:
+                    vs.append(viol("C12", "all-traffic-in-place-undo", f"all starts ×{k} then ÷{k} in place: {why_back}"))
+            except Exception as e:  # noqa
+                vs.append(viol("C12", "all-traffic-in-place-raises", f"all starts ×{k} in place: {type(e).__name__}: {str(e)[:200]}"))
     elif obs3 not in ("fixed-instances", "neg-storage"):
         vs.append(viol("C12", "all-traffic-build-fails", f"all starts ×{k}: {obs3}"))
     return vs, ev
